@@ -220,6 +220,14 @@ func runC01(c *Ctx) {
 	// ---------- R01.11 a rejected write leaves no trace in the stored resource's metadata
 	c.Import(runC19, "R19.3", "pkg/resource.Finalizers)", "R01.11", "E3", "Finalizers.Add/Remove write only to storage created in the same call: a conflicting or rejected AddFinalizer/RemoveFinalizer/Update attempt (built on a copy of the stored resource) cannot alter what the store still holds", 2)
 
+
+	// ---------- error discipline (E8)
+	errDisciplineFor(c, "C01")
+
+	// ---------- R01.13 failure atomicity
+	c.Rule("R01.13", "E8", "inmem / namespaced state: no operation writes collection or state fields and can still fail afterwards — a rejected or failed call is not observable later", 3)
+	c.FailureAtomicity("R01.13", []string{pkgInmem, "pkg/state/impl/namespaced"}, nil, pkgRRuntime, 4)
+
 }
 
 func c01Effects(c *Ctx, rule string, fCreate, fUpdate, fDestroy *ssa.Function) {
